@@ -167,18 +167,24 @@ Definition may_return (fnm : string) (fl : list (string * string)) (pn : string)
   || (String.eqb fnm "core.core_stab" && String.eqb pn "G")
   || (is_method fnm && String.eqb pn "self").
 
+(* objects reachable from parameter [pn] may be stored into a written (hence exempt) parameter *)
+Definition may_store (fnm : string) (fl : list (string * string)) (pn : string) : bool :=
+  may_return fnm fl pn || String.eqb pn "info" || String.eqb pn "cache".
+
 Definition pname (f : fn) (p : param) : string := nth p (fparams f) "?".
 (* a function is clean if its (checked) summary stays within the exception table *)
 Definition fn_clean (f : fn) : bool :=
   forallb (fun p => may_write (fname f) (fflags f) (pname f p)) (fwr0 f ++ fwr f)
-  && forallb (fun p => may_return (fname f) (fflags f) (pname f p)) (fesc f ++ fsto f).
+  && forallb (fun p => may_return (fname f) (fflags f) (pname f p)) (fesc f)
+  && forallb (fun p => may_store (fname f) (fflags f) (pname f p)) (fsto f).
 (* [api]: indices (in the program) of the variants of the exported functions *)
 Definition api_ok (P : prog) (api : list nat) : bool :=
   check_prog P && forallb (fun g => match nth_error P g with Some f => fn_clean f | None => false end) api.
 (* what is NOT clean: used by the harness to print a readable diagnosis *)
 Definition fn_report (f : fn) : list string * list string :=
   (map (pname f) (filter (fun p => negb (may_write (fname f) (fflags f) (pname f p))) (fwr0 f ++ fwr f)),
-   map (pname f) (filter (fun p => negb (may_return (fname f) (fflags f) (pname f p))) (fesc f ++ fsto f))).
+   map (pname f) (filter (fun p => negb (may_return (fname f) (fflags f) (pname f p))) (fesc f)
+                  ++ filter (fun p => negb (may_store (fname f) (fflags f) (pname f p))) (fsto f))).
 
 (* ------------------------------------------------------------------------------------------------ *)
 (* 4. Concrete (relational) semantics over a heap of objects with identities                        *)
@@ -239,10 +245,10 @@ Section Sem.
   | ev_fresh s ys o ob : H o = None ->
       (forall r, In r (orefs ob) -> exists y, In y ys /\ rho y = Some r) ->
       eval H rho (EFresh s ys) (upd H o (Some ob)) (Some o)
-  | ev_call s g args W vals H' r : Forall2 (argval rho) args vals -> callrel g H vals H' r ->
-      eval H rho (ECall s g args W) H' r
+  | ev_call sr ss g args W vals H' r : Forall2 (argval rho) args vals -> callrel g H vals H' r ->
+      eval H rho (ECall sr ss g args W) H' r
   | ev_callback s args vals H' r : Forall2 (argval rho) args vals ->
-      callspec [] (seq 0 (List.length args)) H vals H' r ->
+      callspec ([], [], seq 0 (List.length args), []) H vals H' r ->
       eval H rho (ECallback s args) H' r.
 
   Inductive exec : cmd -> heap -> store -> heap -> store -> outcome -> Prop :=
